@@ -1,7 +1,7 @@
 (* C13 property theorems.  Nothing but statements closed by `exact`, a pin, and
    Print Assumptions.  The driver parses this file's output. *)
 From ZV.Common Require Import Base.
-From ZV.C13 Require Import Model ModelIO ModelReader ModelTypes ModelVersioned ModelRun ProofsLeb ProofsZigzag ProofsSeq ProofsIO ProofsReader ProofsTypes ProofsVersioned.
+From ZV.C13 Require Import Model ModelIO ModelReader ModelTypes ModelVersioned ModelWriter ModelRun ProofsLeb ProofsZigzag ProofsSeq ProofsIO ProofsReader ProofsTypes ProofsVersioned ProofsWriter.
 Open Scope N_scope.
 
 (* decode (encode v ++ rest) = (v, |encode v|): for every u64 and every trailing bytes *)
@@ -269,3 +269,35 @@ Check vs_same_version_accepts :
   forall cfg min_sup cs vs cur rest, narrow cur -> wt_comps cs vs -> ver_le min_sup cur = true ->
     vs_deser cfg min_sup cur cs (enc_versioned cur cs vs ++ rest) = Some (expected cur cur cs vs).
 Print Assumptions vs_same_version_accepts.
+
+(* StreamBufferedWriter (zc = false) and ZeroCopyWriter (zc = true): for every buffer capacity >= 1, every bulk
+   threshold, every inner writer that takes at most `chunk` bytes per call, and EVERY history of write /
+   write_all / flush / write_byte_fast / direct writes after a flush / zc_write+commit / zc_ensure_write that
+   does not end in an error: what reached the destination followed by what is still buffered is what was there
+   before followed by exactly the bytes each operation reported as accepted, in order *)
+Theorem writers_concat :
+  forall chunk cap bulk zc, 0 < cap ->
+  forall ops st outs st',
+    w_run chunk cap bulk zc ops st = Some (outs, st') ->
+    w_stream st' = w_stream st ++ w_all_accepted ops outs.
+Proof. exact writers_concat_proof. Qed.
+Check writers_concat :
+  forall chunk cap bulk zc, 0 < cap ->
+  forall ops st outs st',
+    w_run chunk cap bulk zc ops st = Some (outs, st') ->
+    w_stream st' = w_stream st ++ w_all_accepted ops outs.
+Print Assumptions writers_concat.
+
+(* ... so after a flush / into_inner the destination holds exactly the accepted bytes *)
+Theorem writers_flushed :
+  forall chunk cap bulk zc, 0 < cap ->
+  forall ops outs st',
+    w_run chunk cap bulk zc ops {| w_dest := []; w_buf := [] |} = Some (outs, st') ->
+    w_dest (w_flush st') = w_all_accepted ops outs.
+Proof. exact writers_flushed_proof. Qed.
+Check writers_flushed :
+  forall chunk cap bulk zc, 0 < cap ->
+  forall ops outs st',
+    w_run chunk cap bulk zc ops {| w_dest := []; w_buf := [] |} = Some (outs, st') ->
+    w_dest (w_flush st') = w_all_accepted ops outs.
+Print Assumptions writers_flushed.
